@@ -62,6 +62,10 @@ EXPLAINS = {
 
 
 def match(pid, fail):
+    what = str(fail.get("what", ""))
+    if pid in ("C07",) and "which is not a valid value for type 'enum" in what and "runtime error: load of value" in what:
+        # UBSan -fsanitize=enum at the switch over a decoded enum/discriminator
+        return "cpp-enum-load-out-of-range"
     feats = set(fail.get("features") or ())
     for f in sorted(EXPLAINS.get((pid, fail.get("check")), set()) & feats):
         return f
